@@ -1,2 +1,3 @@
 import TephraProofs.SpanAlg
 import TephraProofs.Canon
+import TephraProofs.Nav
